@@ -1,0 +1,93 @@
+//go:build verif
+
+package hash
+
+// Machine-checked contracts for the gowp verifier (/verif). Comment-only; compiled only under the
+// build tag "verif"; declares nothing.
+//
+// A hash is stored as a map[string]interface{} under its key; a field is present iff the map has it (hwf: stored fields
+// are never nil, which HSET / HINCRBY maintain since AdaptType never yields nil).
+
+//@ spec hkey(params internal.HandlerFuncParams) string = old(params.Command[1])
+//@ spec harg(params internal.HandlerFuncParams, i int) string = old(params.Command[i])
+//@ spec hval(params internal.HandlerFuncParams, k string) any = $srv.store[dbof(params.Context)][k].Value
+//@ spec hlive(params internal.HandlerFuncParams, k string) bool = sugardb.livekey($srv, dbof(params.Context), k, $now)
+//@ spec ishash(v any) bool = istype(v, "map[string]interface{}")
+//@ spec ashash(v any) map[string]interface{} = astype(v, "map[string]interface{}")
+//@ spec onhash(params internal.HandlerFuncParams) bool = old(hlive(params, hkey(params))) && old(ishash(hval(params, hkey(params))))
+// the hash stored under the command's key on entry (a map reference: its fields are read in the state of the context)
+//@ spec h0(params internal.HandlerFuncParams) map[string]interface{} = old(ashash(hval(params, hkey(params))))
+// hwf: every stored field has a value
+//@ spec hwf(m map[string]interface{}) bool = forall f string :: has(m, f) ==> m[f] != nil
+// the keyspace is only read: keys stay what they were (apart from expired keys being collected) and the hash keeps its fields
+//@ spec hpure(params internal.HandlerFuncParams) bool = forall k string :: has($srv.store[dbof(params.Context)], k) ==> old(has($srv.store[dbof(params.Context)], k)) && $srv.store[dbof(params.Context)][k] == old($srv.store[dbof(params.Context)][k])
+//@ spec hcontent(params internal.HandlerFuncParams) bool = onhash(params) ==> (forall f string :: (has(h0(params), f) <==> old(has(ashash(hval(params, hkey(params))), f))) && h0(params)[f] == old(ashash(hval(params, hkey(params)))[f]))
+
+//@ func handleHLEN props C14,C12,C13
+//@   requires generic.henv(params)
+//@   assumes own-cmd: len(params.Command) >= 2 ==> disjointarr(params.Command, $srv.keysWithExpiry.keys[dbof(params.Context)])
+//@   assumes stored-wf: len(params.Command) >= 2 && ishash(hval(params, hkey(params))) ==> !fresh(ashash(hval(params, hkey(params))))
+//@   ensures {C14} arity: len(params.Command) != 2 ==> result1 != nil
+//@   ensures {C14} absent: len(params.Command) == 2 && !old(hlive(params, hkey(params))) ==> result1 == nil && bstr(result0) == ":0\r\n"
+//@   ensures {C14} wrongtype: len(params.Command) == 2 && old(hlive(params, hkey(params))) && !old(ishash(hval(params, hkey(params)))) ==> result1 != nil
+//@   ensures {C14} length: len(params.Command) == 2 && onhash(params) ==> result1 == nil && bstr(result0) == ":" ++ (itoa(old(len(ashash(hval(params, hkey(params)))))) ++ "\r\n")
+//@   ensures {C13,C14} pure: hpure(params)
+//@   ensures {C13,C14} content: hcontent(params)
+
+//@ func handleHEXISTS props C14,C12,C13
+//@   requires generic.henv(params)
+//@   assumes own-cmd: len(params.Command) >= 2 ==> disjointarr(params.Command, $srv.keysWithExpiry.keys[dbof(params.Context)])
+//@   assumes stored-wf: len(params.Command) >= 2 && ishash(hval(params, hkey(params))) ==> !fresh(ashash(hval(params, hkey(params)))) && hwf(ashash(hval(params, hkey(params))))
+//@   ensures {C14} arity: len(params.Command) != 3 ==> result1 != nil
+//@   ensures {C14} absent: len(params.Command) == 3 && !old(hlive(params, hkey(params))) ==> result1 == nil && bstr(result0) == ":0\r\n"
+//@   ensures {C14} wrongtype: len(params.Command) == 3 && old(hlive(params, hkey(params))) && !old(ishash(hval(params, hkey(params)))) ==> result1 != nil
+//@   ensures {C14} exists: len(params.Command) == 3 && onhash(params) ==> result1 == nil && bstr(result0) == (old(has(ashash(hval(params, hkey(params))), params.Command[2])) ? ":1\r\n" : ":0\r\n")
+//@   ensures {C13,C14} pure: hpure(params)
+//@   ensures {C13,C14} content: hcontent(params)
+
+// HDEL removes exactly the named fields that are present and replies how many it removed.
+//@ spec hnow(params internal.HandlerFuncParams) map[string]interface{} = ashash(hval(params, hkey(params)))
+//@ spec hnamed(params internal.HandlerFuncParams, f string, from int) bool = exists i int :: from <= i && i < len(params.Command) && harg(params, i) == f
+//@ spec hothers(params internal.HandlerFuncParams) bool = forall k string :: k != hkey(params) && has($srv.store[dbof(params.Context)], k) ==> old(has($srv.store[dbof(params.Context)], k)) && $srv.store[dbof(params.Context)][k] == old($srv.store[dbof(params.Context)][k])
+
+//@ func handleHDEL props C14,C12
+//@   requires generic.henv(params)
+//@   assumes own-cmd: len(params.Command) >= 2 ==> disjointarr(params.Command, $srv.keysWithExpiry.keys[dbof(params.Context)])
+//@   assumes stored-wf: len(params.Command) >= 2 && ishash(hval(params, hkey(params))) ==> !fresh(ashash(hval(params, hkey(params)))) && hwf(ashash(hval(params, hkey(params))))
+//@   ensures {C14} arity: len(params.Command) < 3 ==> result1 != nil
+//@   ensures {C14} absent: len(params.Command) >= 3 && !old(hlive(params, hkey(params))) ==> result1 == nil && bstr(result0) == ":0\r\n"
+//@   ensures {C14} wrongtype: len(params.Command) >= 3 && old(hlive(params, hkey(params))) && !old(ishash(hval(params, hkey(params)))) ==> result1 != nil && hval(params, hkey(params)) == old(hval(params, hkey(params)))
+//@   ensures {C14} deleted: result1 == nil && onhash(params) ==> ishash(hval(params, hkey(params))) && (forall f string :: has(hnow(params), f) <==> (old(has(ashash(hval(params, hkey(params))), f)) && !hnamed(params, f, 2)))
+//@   ensures {C14} kept: result1 == nil && onhash(params) ==> (forall f string :: has(hnow(params), f) ==> hnow(params)[f] == old(ashash(hval(params, hkey(params)))[f]))
+//@   ensures {C14} reply: result1 == nil && onhash(params) ==> bstr(result0) == ":" ++ (itoa(old(len(ashash(hval(params, hkey(params))))) - len(hnow(params))) ++ "\r\n")
+//@   ensures {C14} wf: result1 == nil && onhash(params) ==> hwf(hnow(params))
+//@   ensures {C14,C20} others: hothers(params)
+//@   loop 0
+//@     invariant onhash(params) && hash == h0(params) && -1 <= rangeindex && rangeindex < len(rangeslice) && len(rangeslice) == len(params.Command) - 2 && hwf(hash)
+//@     invariant forall j int :: 0 <= j && j < len(rangeslice) ==> rangeslice[j] == harg(params, j + 2)
+//@     invariant forall f string :: has(hash, f) <==> (old(has(ashash(hval(params, hkey(params))), f)) && !(exists i int :: 2 <= i && i <= rangeindex + 2 && harg(params, i) == f))
+//@     invariant forall f string :: has(hash, f) ==> hash[f] == old(ashash(hval(params, hkey(params)))[f])
+//@     invariant count == old(len(ashash(hval(params, hkey(params))))) - len(hash)
+//@     invariant hpure(params)
+
+// HINCRBY / HINCRBYFLOAT add to a numeric field (an absent field counts as the integer 0; an absent key as the empty hash).
+// The float increment is parsed by strconv.ParseFloat (outside the proof): for HINCRBYFLOAT only the type of the result is decided.
+//@ spec hisfloatcmd(params internal.HandlerFuncParams) bool = lower(harg(params, 0)) == lower("hincrbyfloat")
+//@ spec hfld(params internal.HandlerFuncParams) string = harg(params, 2)
+//@ spec hfold(params internal.HandlerFuncParams) any = old(ashash(hval(params, hkey(params)))[params.Command[2]])
+
+//@ func handleHINCRBY props C14,C12
+//@   requires generic.henv(params)
+//@   assumes own-cmd: len(params.Command) >= 2 ==> disjointarr(params.Command, $srv.keysWithExpiry.keys[dbof(params.Context)])
+//@   assumes stored-wf: len(params.Command) >= 2 && ishash(hval(params, hkey(params))) ==> !fresh(ashash(hval(params, hkey(params)))) && hwf(ashash(hval(params, hkey(params)))) && ashash(hval(params, hkey(params))) != nil
+//@   ensures {C14} arity: len(params.Command) != 4 ==> result1 != nil
+//@   ensures {C14} badinteger: len(params.Command) == 4 && !hisfloatcmd(params) && !atoiok(harg(params, 3)) ==> result1 != nil
+//@   ensures {C14} created: result1 == nil && !hisfloatcmd(params) && !old(hlive(params, hkey(params))) ==> ishash(hval(params, hkey(params))) && (forall f string :: has(hnow(params), f) <==> f == hfld(params)) && isint(hnow(params)[hfld(params)]) && asint(hnow(params)[hfld(params)]) == atoi(harg(params, 3))
+//@   ensures {C14} wrongtype: len(params.Command) == 4 && old(hlive(params, hkey(params))) && !old(ishash(hval(params, hkey(params)))) ==> result1 != nil && hval(params, hkey(params)) == old(hval(params, hkey(params)))
+//@   ensures {C14} int-on-int: result1 == nil && !hisfloatcmd(params) && onhash(params) && (hfold(params) == nil || isint(hfold(params))) ==> ishash(hval(params, hkey(params))) && isint(hnow(params)[hfld(params)]) && asint(hnow(params)[hfld(params)]) == (hfold(params) == nil ? 0 : asint(hfold(params))) + atoi(harg(params, 3))
+//@   ensures {C14} int-on-float: result1 == nil && !hisfloatcmd(params) && onhash(params) && isfloat(hfold(params)) ==> ishash(hval(params, hkey(params))) && isfloat(hnow(params)[hfld(params)]) && asfloat(hnow(params)[hfld(params)]) == asfloat(hfold(params)) + float64(atoi(harg(params, 3)))
+//@   ensures {C14} float-type: result1 == nil && hisfloatcmd(params) && onhash(params) ==> ishash(hval(params, hkey(params))) && isfloat(hnow(params)[hfld(params)])
+//@   ensures {C14} notnumber: len(params.Command) == 4 && onhash(params) && hfold(params) != nil && !isint(hfold(params)) && !isfloat(hfold(params)) ==> result1 != nil
+//@   ensures {C14} otherfields: result1 == nil && onhash(params) ==> (forall f string :: f != hfld(params) ==> (has(hnow(params), f) <==> old(has(ashash(hval(params, hkey(params))), f))) && hnow(params)[f] == old(ashash(hval(params, hkey(params)))[f]))
+//@   ensures {C14} reply-int: result1 == nil && !hisfloatcmd(params) && onhash(params) && (hfold(params) == nil || isint(hfold(params))) ==> bstr(result0) == ":" ++ (itoa((hfold(params) == nil ? 0 : asint(hfold(params))) + atoi(harg(params, 3))) ++ "\r\n")
+//@   ensures {C14,C20} others: hothers(params)
